@@ -5,6 +5,7 @@ From Coq Require Import List NArith Bool.
 From SV Require Import lib.Bytes model.Graph model.GraphInv gen.GenCrash model.Crash proofs.CrashProofs
   proofs.CrashReach proofs.CrashStarted model.CrashStartup proofs.CrashStartupGen proofs.CrashStartupProofs.
 From SV Require Import model.CrashHist proofs.CrashHistProofs.
+From SV Require gen.GenCrashSchema model.CrashSchema proofs.CrashSchemaProofs.
 From SV Require model.Engine proofs.EngineProofs model.CrashEngine proofs.CrashEngineProofs
   proofs.EngineAmendProofs proofs.EngineAmendFull proofs.CrashEngineAmend.
 Import ListNotations.
@@ -86,6 +87,35 @@ Proof. exact open_point_zero_now. Qed.
 Theorem C05_open_point_zero_refuted_without_root_repair :
   forall cap ops strict, exists t, open_db false strict cap (db_at cap ops 0) = Internal t.
 Proof. exact open_point_zero_refuted. Qed.
+
+(* ---- 1b. a kill inside DBSession.apply_schema (model/CrashSchema.v) ------------------------------
+   apply_schema runs in autocommit mode: every statement (the two stamps PRAGMA application_id /
+   user_version, every CREATE of the schema scripts) is committed on its own, so a killed first start
+   leaves a PREFIX of them.  The order of the writing statements is GENERATED from the source
+   (gen/GenCrashSchema.v).  For scripts with any number of objects and a kill after any number of
+   statements, the next apply_schema returns without error and leaves the complete schema (then
+   C05_open_point_zero applies: schema without root).  Stamps after the scripts are refuted. *)
+Theorem C05_schema_source_structure :
+  GenCrashSchema.apply_schema_sequence = [10; 11; 12; 1; 2; 3; 4] /\
+  GenCrashSchema.apply_schema_writes = [1; 2; 3].
+Proof. split; [exact CrashSchemaProofs.schema_sequence_eq | exact CrashSchemaProofs.schema_order_eq]. Qed.
+
+Theorem C05_schema_every_prefix_reopens :
+  forall n k, exists fresh,
+    CrashSchema.open_schema GenCrashSchema.apply_schema_writes n
+      (CrashSchema.schema_crash GenCrashSchema.apply_schema_writes n k) = CrashSchema.SOk fresh (CrashSchema.complete n).
+Proof. exact CrashSchemaProofs.schema_prefix_reopens. Qed.
+
+Theorem C05_schema_stamps_after_scripts_refuted :
+  exists n k, CrashSchema.open_schema [3; 1; 2] n (CrashSchema.schema_crash [3; 1; 2] n k)
+              = CrashSchema.SInvalidApplicationId.
+Proof. exact CrashSchemaProofs.schema_stamps_last_refuted. Qed.
+
+Example C05_schema_example :
+  forallb (CrashSchema.reopens_b GenCrashSchema.apply_schema_writes 5) (seq 0 9) = true /\
+  forallb (CrashSchema.reopens_b [3; 1; 2] 5) (seq 0 9) = false /\
+  CrashSchema.hobjs (CrashSchema.schema_crash GenCrashSchema.apply_schema_writes 5 4) = [0%nat; 1%nat].
+Proof. exact CrashSchemaProofs.schema_example. Qed.
 
 (* ---- 2. interrupted steps ---------------------------------------------------------------------*)
 Theorem C05_reset_interrupted_post :
